@@ -579,3 +579,258 @@ Proof.
     + vm_compute. repeat split.
   - vm_compute. reflexivity.
 Qed.
+
+(* ------------------------------------------------------------------ *)
+(* for the shapes stats.go has, losses (b) and (c) cannot occur *)
+Definition never_null (t : fty) : bool :=
+  match t with TSlice _ | TMap _ | TPtr _ => false | _ => true end.
+Definition omit_exact (t : fty) : bool :=     (* isEmptyValue v <-> v is the zero value *)
+  match t with TStr | TBool | TUint _ | TInt _ | TEnum _ _ | TPtr _ => true | _ => false end.
+Fixpoint plain_ty (t : fty) : bool :=
+  match t with
+  | TSlice e | TMap e => plain_ty e
+  | TPtr e => andb (never_null e) (plain_ty e)
+  | TStruct fs =>
+      forallb (fun fd => andb (plain_ty (fd_ty fd)) (orb (negb (fd_omit fd)) (omit_exact (fd_ty fd)))) fs
+  | _ => true
+  end.
+
+Section Plain.
+  Variable F : Type.
+  Variable fzero : F.
+  Variable fis_zero : F -> bool.
+  Notation gval := (gval F).
+  Notation has_type := (has_type F).
+  Notation zero_of := (zero_of F fzero).
+  Notation is_empty := (is_empty F fis_zero).
+
+  Lemma never_null_prints t v : never_null t = true -> has_type t v -> prints_null F v = false.
+  Proof. destruct t; try discriminate; destruct v; simpl; try contradiction; reflexivity. Qed.
+
+  Lemma omit_exact_zero t v :
+    omit_exact t = true -> has_type t v -> is_empty v = true -> v = zero_of t.
+  Proof.
+    destruct t; try discriminate; destruct v; simpl; try contradiction; intros _ _ He.
+    - apply String.eqb_eq in He. subst. reflexivity.
+    - destruct b; [discriminate | reflexivity].
+    - apply Z.eqb_eq in He. subst. reflexivity.
+    - apply Z.eqb_eq in He. subst. reflexivity.
+    - apply Z.eqb_eq in He. subst. reflexivity.
+    - destruct o; [discriminate | reflexivity].
+  Qed.
+
+  Lemma plain_lossless : forall t, plain_ty t = true -> forall v,
+    has_type t v -> enum_ok F t v -> lossless F fzero fis_zero t v.
+  Proof.
+    induction t as [| | b | b | | name custom | e IH | e IH | e IH | fs IH] using fty_ind';
+      intros Hp v Ht He; unfold lossless; destruct v; simpl in *; try contradiction; try (split; exact I).
+    - split; [exact He | exact I].
+    - destruct o as [l|]; [|split; exact I].
+      assert (Forall (fun x => lossless F fzero fis_zero e x) l) as H.
+      { rewrite Forall_forall in *. intros x Hx. apply IH; auto. }
+      split; rewrite Forall_forall in *; intros x Hx; apply (H x Hx).
+    - destruct o as [l|]; [|split; exact I]. destruct Ht as [_ Ht].
+      assert (Forall (fun kv => lossless F fzero fis_zero e (snd kv)) l) as H.
+      { rewrite Forall_forall in *. intros x Hx. apply IH; auto. }
+      split; rewrite Forall_forall in *; intros x Hx; apply (H x Hx).
+    - destruct o as [p|]; [|split; exact I].
+      apply andb_true_iff in Hp. destruct Hp as [Hnn Hp].
+      destruct (IH Hp p Ht He) as [Hs Hk]. split; [exact Hs|]. split; [exact Hk|].
+      eapply never_null_prints; eassumption.
+    - revert l Ht He. induction IH as [|fd fs Hfd _ IHfs]; intros vs Ht He.
+      + destruct vs; [split; exact I | contradiction].
+      + destruct vs as [|v vs]; [contradiction|]. simpl in Hp. apply andb_true_iff in Hp.
+        destruct Hp as [Hp1 Hp2]. apply andb_true_iff in Hp1. destruct Hp1 as [Hpl Hom].
+        destruct Ht as [Ht1 Ht2], He as [He1 He2].
+        destruct (Hfd Hpl v Ht1 He1) as [Hs Hk].
+        destruct (IHfs Hp2 vs Ht2 He2) as [Hs' Hk'].
+        split; simpl; (split; [|assumption]); [|exact Hk].
+        split; [exact Hs|]. intros Ho Hem. rewrite Ho in Hom. simpl in Hom.
+        eapply omit_exact_zero; eassumption.
+  Qed.
+End Plain.
+
+Lemma stats_shapes_plain : forallb (fun t => plain_ty (stats_fty t)) all_stats_ty = true.
+Proof. vm_compute. reflexivity. Qed.
+
+(* Stats values: the guard is clause (a) alone *)
+Lemma stats_payload_roundtrip_enum
+  (num F : Type) (num_of_int : Z -> num) (num_of_flt : F -> num)
+  (int_of_num : num -> option Z) (flt_of_num : num -> option F) (fzero : F) (fis_zero : F -> bool) :
+  (forall z, int_of_num (num_of_int z) = Some z) ->
+  (forall f, flt_of_num (num_of_flt f) = Some f) ->
+  forall t v,
+    has_type F (stats_fty t) v -> own_tag F t v -> enum_ok F (stats_fty t) v ->
+    exists j, marshal_stats num F num_of_int num_of_flt fis_zero t v = Ok j /\
+              unmarshal_stats num F int_of_num flt_of_num fzero j = Ok (t, v).
+Proof.
+  intros Hi Hf t v Ht Hown He.
+  apply (stats_payload_roundtrip num F num_of_int num_of_flt int_of_num flt_of_num fzero fis_zero Hi Hf t v Ht Hown).
+  apply plain_lossless; [|exact Ht|exact He].
+  pose proof stats_shapes_plain as H. rewrite forallb_forall in H. apply H.
+  destruct t; simpl; tauto.
+Qed.
+
+(* ------------------------------------------------------------------ *)
+(* clause (a) of the guard is necessary: a top-level enum member (without
+   omitempty) at a rejected Unknown constant makes the decoder abort *)
+Definition is_err {A} (r : result A) : bool := match r with Err _ => true | _ => false end.
+Definition unknown_aborts (e : enum) : bool :=
+  match e_json e with
+  | Some d => if andb (unknown_value e 0) (rejecting (Some d))
+              then is_err (decode d (to_string e 0)) else true
+  | None => true
+  end.
+Lemma unknown_aborts_all : forallb unknown_aborts all_enums = true.
+Proof. vm_compute. reflexivity. Qed.
+
+Section Exact.
+  Variables num F : Type.
+  Variable num_of_int : Z -> num.
+  Variable num_of_flt : F -> num.
+  Variable int_of_num : num -> option Z.
+  Variable flt_of_num : num -> option F.
+  Variable fzero : F.
+  Variable fis_zero : F -> bool.
+  Notation jv := (jv num).
+  Notation gval := (gval F).
+  Notation enc := (enc num F num_of_int num_of_flt fis_zero).
+  Notation dec := (dec num F int_of_num flt_of_num fzero).
+
+  Notation bad_enum_member := (bad_enum_member F).
+
+  Lemma enum_abort name custom ed z cur :
+    enum_coder name = Ok ed -> unknown_rejected (e_json (fst ed)) (fst ed) z ->
+    exists j, enc (TEnum name custom) (GInt z) = Ok j /\
+              exists e, dec (TEnum name custom) j cur = Err e.
+  Proof.
+    intros Hed [Hu Hr]. destruct ed as [e d]. simpl in *.
+    destruct (enum_coder_inv _ _ _ Hed) as [Hall Hj].
+    pose proof unknown_aborts_all as H. rewrite forallb_forall in H. specialize (H e Hall).
+    unfold unknown_aborts in H. rewrite Hj in H. rewrite Hj in Hr.
+    unfold unknown_value in Hu. apply andb_true_iff in Hu. destruct Hu as [Hz Hu].
+    apply Z.eqb_eq in Hz. subst z.
+    assert (unknown_value e 0 = true) as Hu0 by (unfold unknown_value; rewrite Hu; reflexivity).
+    rewrite Hu0, Hr in H. simpl in H.
+    exists (JvStr (to_string e 0)). simpl. rewrite Hed. simpl. split; [reflexivity|].
+    destruct (decode d (to_string e 0)) as [?|msg|]; try discriminate.
+    exists msg. destruct custom; reflexivity.
+  Qed.
+
+  Lemma enc_fields_split pre fd post : forall vpre v vpost ms,
+    List.length pre = List.length vpre -> fd_omit fd = false ->
+    enc_fields num F fis_zero enc (pre ++ fd :: post) (vpre ++ v :: vpost) = Ok ms ->
+    exists ms1 j ms2, ms = ms1 ++ (fd_json fd, j) :: ms2 /\ enc (fd_ty fd) v = Ok j.
+  Proof.
+    induction pre as [|p pre IH]; intros vpre v vpost ms Hl Ho Hms.
+    - destruct vpre; [|discriminate]. simpl in Hms. rewrite Ho in Hms. simpl in Hms.
+      destruct (enc (fd_ty fd) v) as [j| |]; try discriminate. simpl in Hms.
+      destruct (enc_fields num F fis_zero enc post vpost) as [r| |]; try discriminate.
+      simpl in Hms. inversion Hms. exists [], j, r. split; reflexivity.
+    - destruct vpre as [|pv vpre]; [discriminate|]. simpl in Hl. simpl in Hms.
+      destruct (andb (fd_omit p) (is_empty F fis_zero pv)).
+      + apply (IH vpre v vpost ms); [lia | exact Ho | exact Hms].
+      + destruct (enc (fd_ty p) pv) as [jp| |]; try discriminate. simpl in Hms.
+        destruct (enc_fields num F fis_zero enc (pre ++ fd :: post) (vpre ++ v :: vpost)) as [r| |] eqn:Hr;
+          try discriminate.
+        simpl in Hms. inversion Hms.
+        destruct (IH vpre v vpost r) as [ms1 [j [ms2 [E Hj]]]]; [lia | exact Ho | exact Hr |].
+        exists ((fd_json p, jp) :: ms1), j, ms2. split; [rewrite E; reflexivity | exact Hj].
+  Qed.
+
+  Lemma upd_slot_len decf m j fs : forall vs vs' e,
+    upd_slot num F decf m j fs vs = Ok (vs', e) -> List.length vs' = List.length vs.
+  Proof.
+    induction fs as [|fd fs IH]; intros vs vs' e H.
+    - destruct vs; simpl in H; inversion H; reflexivity.
+    - destruct vs as [|v vs]; simpl in H; [inversion H; reflexivity|].
+      destruct (m (fd_json fd)).
+      + destruct (decf (fd_ty fd) j v) as [[a b]| |]; simpl in H; inversion H. reflexivity.
+      + destruct (upd_slot num F decf m j fs vs) as [[a b]| |] eqn:Hu; simpl in H; inversion H.
+        simpl. f_equal. eapply IH. exact Hu.
+  Qed.
+
+  Lemma upd_slot_abort decf m j pre fd post : forall vs,
+    List.length vs = List.length (pre ++ fd :: post) ->
+    (forall fd', In fd' pre -> m (fd_json fd') = false) ->
+    m (fd_json fd) = true ->
+    (forall cur, exists e, decf (fd_ty fd) j cur = Err e) ->
+    exists e, upd_slot num F decf m j (pre ++ fd :: post) vs = Err e.
+  Proof.
+    induction pre as [|p pre IH]; intros vs Hl Hm Hh Hd.
+    - destruct vs as [|c vs]; [discriminate|]. simpl. rewrite Hh.
+      destruct (Hd c) as [e He]. rewrite He. exists e. reflexivity.
+    - destruct vs as [|c vs]; [discriminate|]. simpl. rewrite (Hm p (or_introl eq_refl)).
+      destruct (IH vs) as [e He]; [simpl in Hl; lia | intros; apply Hm; right; assumption | exact Hh | exact Hd |].
+      rewrite He. exists e. reflexivity.
+  Qed.
+
+  Lemma dec_members_abort pre fd post jbad ms2 :
+    nodup_b (names (pre ++ fd :: post)) = true ->
+    (forall cur, exists e, dec (fd_ty fd) jbad cur = Err e) ->
+    forall ms1 vs, List.length vs = List.length (pre ++ fd :: post) ->
+    forall r, dec_members num F dec (pre ++ fd :: post) (ms1 ++ (fd_json fd, jbad) :: ms2) vs <> Ok r.
+  Proof.
+    intros Hnd Hd. induction ms1 as [|[k1 j1] ms1 IH]; intros vs Hl r.
+    - simpl.
+      assert (existsb (fun fd0 => String.eqb (fd_json fd) (fd_json fd0)) (pre ++ fd :: post) = true) as Hex.
+      { apply existsb_exists. exists fd. split; [apply in_or_app; right; left; reflexivity | apply String.eqb_refl]. }
+      rewrite Hex. cbv iota. destruct (nodup_names_split _ _ _ Hnd) as [Hpre _].
+      destruct (upd_slot_abort dec (String.eqb (fd_json fd)) jbad pre fd post vs Hl) as [e He].
+      + intros fd' Hin. rewrite String.eqb_sym. apply String.eqb_neq. intro E.
+        apply (Hpre fd' Hin). rewrite E. reflexivity.
+      + apply String.eqb_refl.
+      + exact Hd.
+      + unfold fdecl in *. rewrite He. simpl. discriminate.
+    - simpl. destruct (upd_slot num F dec _ j1 (pre ++ fd :: post) vs) as [[a b]| |] eqn:Hu; simpl; try discriminate.
+      pose proof (upd_slot_len _ _ _ _ _ _ _ Hu) as Hlen.
+      destruct (dec_members num F dec (pre ++ fd :: post) (ms1 ++ (fd_json fd, jbad) :: ms2) a) as [[c d]| |] eqn:Hm;
+        simpl; try discriminate.
+      exfalso. apply (IH a (eq_trans Hlen Hl) (c, d)). exact Hm.
+  Qed.
+
+  Lemma struct_bad_enum_fails fs vs j :
+    nodup_b (names fs) = true -> bad_enum_member fs vs ->
+    enc (TStruct fs) (GStruct vs) = Ok j ->
+    forall v', unmarshal num F int_of_num flt_of_num fzero (TStruct fs) j <> Ok v'.
+  Proof.
+    intros Hnd (pre & fd & post & vpre & z & vpost & name & custom & ed & Hfs & Hvs & Hl & Hty & Ho & Hed & Hur) Hj v'.
+    subst fs vs. simpl in Hj.
+    destruct (enc_fields num F fis_zero enc (pre ++ fd :: post) (vpre ++ GInt z :: vpost)) as [ms| |] eqn:Hms;
+      try discriminate.
+    simpl in Hj. inversion Hj; subst j. clear Hj.
+    destruct (enc_fields_split pre fd post vpre (GInt z) vpost ms Hl Ho Hms) as [ms1 [jb [ms2 [E Hjb]]]].
+    rewrite Hty in Hjb.
+    assert (forall cur, exists e, dec (fd_ty fd) jb cur = Err e) as Hab.
+    { intro cur. rewrite Hty. destruct (enum_abort name custom ed z cur Hed Hur) as [j' [Hj' He]].
+      rewrite Hjb in Hj'. inversion Hj'. subst. exact He. }
+    unfold unmarshal. simpl. subst ms.
+    pose proof (dec_members_abort pre fd post jb ms2 Hnd Hab ms1
+                  (map (fun fd0 => zero_of F fzero (fd_ty fd0)) (pre ++ fd :: post))) as H.
+    rewrite map_length in H. specialize (H eq_refl).
+    destruct (dec_members num F dec (pre ++ fd :: post) (ms1 ++ (fd_json fd, jb) :: ms2)
+                (map (fun fd0 => zero_of F fzero (fd_ty fd0)) (pre ++ fd :: post))) as [[a b]| |] eqn:Hd.
+    - exfalso. apply (H (a, b)). reflexivity.
+    - simpl. discriminate.
+    - simpl. discriminate.
+  Qed.
+
+  (* Stats: such a value does not come back, whatever its tag *)
+  Lemma stats_bad_enum_fails t vs j :
+    bad_enum_member (shape_of t) vs ->
+    marshal_stats num F num_of_int num_of_flt fis_zero t (GStruct vs) = Ok j ->
+    unmarshal_stats num F int_of_num flt_of_num fzero j <> Ok (t, GStruct vs).
+  Proof.
+    intros Hbad Hj Hu. pose proof (stats_table F fzero fis_zero t) as Htab. unfold stats_table_ok in Htab.
+    apply andb_true_iff in Htab. destruct Htab as [Hwf _]. simpl in Hwf.
+    apply andb_true_iff in Hwf. destruct Hwf as [Hnd _].
+    unfold unmarshal_stats in Hu.
+    destruct (holder num F int_of_num flt_of_num fzero "type" j) as [tag| |]; simpl in Hu; try discriminate.
+    destruct (if needs_kind tag then holder num F int_of_num flt_of_num fzero "kind" j else Ok "") as [kind| |];
+      simpl in Hu; try discriminate.
+    destruct (stats_dispatch tag kind) as [t'| |]; simpl in Hu; try discriminate.
+    destruct (unmarshal num F int_of_num flt_of_num fzero (stats_fty t') j) as [v'| |] eqn:Hv; try discriminate.
+    inversion Hu. subst t' v'.
+    exact (struct_bad_enum_fails (shape_of t) vs j Hnd Hbad Hj (GStruct vs) Hv).
+  Qed.
+End Exact.
